@@ -43,7 +43,7 @@ def nontrivial(sc, ob, verdict):
     srcs = sx.field(sc[1:], "srcs")
     bad = any(illformed(part[1:]) for s in srcs for part in s if part and part[0] == "att")
     hot = len(sx.field(sc[1:], "subjects")) >= 1
-    return bad or hot or len(srcs) >= 2
+    return bad or hot or len(srcs) >= 2 or "(manual" in sx.dumps(sc)
 
 
 def classify(sc, ob, verdict):
@@ -106,4 +106,19 @@ def generate(rng, tier, focus):
         if rng.random() < 0.3:
             acts.insert(rng.randrange(1, len(acts) + 1), sub(1, ["hot", rng.randrange(2)]))
         cases.append((scn(subjects=subj, handles=2, script_=acts), {"k": "hot"}))
+    # 6. hand-driven sources (Observable::create that keeps its observers): the driver pushes any sequence, also after a
+    #    terminal, and subscriber callbacks push re-entrantly (next/error/complete from inside a callback of the same observer)
+    k6 = 4000 if thorough else 700
+    for _ in range(k6):
+        d = rng.choice([0, 0, 1, 2])
+        p = scen.rand_chain(rng, ["manual", 0], d)
+        reacts = []
+        for _ in range(rng.choice([0, 1, 1, 2])):
+            reacts.append((rng.randrange(4), ["push", 0, rng.choice(ALPHA)]))
+        acts = [sub(0, p, *reacts)]
+        for _ in range(rng.randrange(1, 6)):
+            acts.append(["push", 0, rng.choice(ALPHA)])
+        if rng.random() < 0.2:
+            acts.insert(rng.randrange(1, len(acts) + 1), ["unsub", 0])
+        cases.append((scn(handles=1, script_=acts), {"k": "manual"}))
     return cases
